@@ -618,10 +618,13 @@ impl Check for C13 {
         // ... and half of those issue one more request on the handle first (it is refused if the
         // DISCONNECT was parked or sent, and then must leave nothing behind)
         let other_op: Option<Step> = if reconnect_after && !matches!(request, Step::Publish(_) | Step::Subscribe(_) | Step::Unsubscribe(_)) && rng.chance(1, 2) {
-            Some(match rng.below(4) {
+            Some(match rng.below(6) {
                 0 => Step::Subscribe(SubSpec { filters: vec![FilterSpec { filter: "c13/after".into(), max_qos: 1, no_local: false, rap: false, rh: 0 }], props: vec![], cancel_at: None }),
                 1 => Step::Unsubscribe(UnsubSpec { filters: vec!["c13/after".into()], props: vec![], cancel_at: None }),
                 2 => pubq(1 + rng.below(2) as u8, "c13/after", 0xAF, 3),
+                // (after a wait that was given up: the application shuts the connection down
+                // gracefully - disconnect() first finishes what the wait left half written)
+                3 | 4 if !matches!(request, Step::Disconnect(_)) => Step::Disconnect(DiscSpec { reason: *rng.pick(&[None, Some(4u8)]), props: None, cancel_at: None }),
                 _ => Step::Drive { cancel_at: None },
             })
         } else {
@@ -845,6 +848,25 @@ impl Check for C13 {
                 };
                 if la != lb && ok {
                     out.count("next_connection_like_the_handle_dropped_without_disconnect", 1);
+                }
+                // a wait was given up and the application then shut the connection down with a
+                // disconnect() that returned Ok: everything in front of the DISCONNECT was written
+                // and flushed, so an acknowledgement that is whole on that connection is not owed
+                // any more and does not go out again on the next one (unless the uncancelled run
+                // sends it there as well, i.e. the broker asked for it again)
+                if matches!(kind, "poll" | "recv" | "drive") {
+                    if let Some(oi) = other_at.get() {
+                        let o = &blog.ops[oi];
+                        if o.kind == "disconnect" && matches!(o.outcome, Outcome::Ok(_)) && b_obs.packets.len() >= 2 {
+                            out.count("waits_given_up_then_graceful_disconnect_then_resumed", 1);
+                            let n = b_obs.packets.len();
+                            let is_ack = |p: &Vec<u8>| matches!(p.first().map(|b| b >> 4), Some(4 | 5 | 7));
+                            let again = b_obs.packets[n - 1].iter().find(|p| is_ack(p) && b_obs.packets[n - 2].contains(p) && !a_obs.packets.last().is_some_and(|l| l.contains(p)));
+                            if let Some(pk) = again {
+                                out.violations.push(viol("C13", format!("C13/{}/acknowledgement-sent-again-after-a-graceful-disconnect", kind), format!("{} given up at await {:?}, then disconnect() returned Ok, handle dropped, connected again: {} was written whole before the DISCONNECT and goes out again on the next connection (the uncancelled run does not send it there)", kind, cancels, describe(pk))));
+                            }
+                        }
+                    }
                 }
                 if a_obs.packets.len() != b_obs.packets.len() || !ok || bw.conns.last().is_some_and(|c| c.out.error.is_some()) {
                     let i = la.zip(lb).and_then(|(x, y)| x.iter().zip(y.iter()).position(|(p, q)| p != q)).unwrap_or(0);
